@@ -21,7 +21,7 @@ RULE = ("histories of 50 (quick) / 400 (thorough) operations over a pool of 9 CA
         "sampled 29-bit ids through send_message and send_periodic. Scanner: every standard id alone (exhaustive) and random "
         "sequences incl. 29-bit ids. Signature = (operation kind, id class, state class); non-trivial = operation on an id "
         "with at least one subscriber or a node operation.")
-RULE += (" " + "Widened later: format of cyclic tasks after update() on both task flavours, reconnect on python-can's virtual bus, removal / replacement of a node after a wholesale unsubscribe of one of its ids, falsy callable subscribers.")
+RULE += (" " + "Widened later: format of cyclic tasks after update() on both task flavours, reconnect on python-can's virtual bus, removal / replacement of a node after a wholesale unsubscribe of one of its ids, falsy callable subscribers. Round 8: cyclic remote frames created without data (as node guarding does) are judged for their frame format; half of the scanner sequences reach the network through the bus listener on ids nobody subscribed to.")
 ASSUMPTIONS = ["callbacks that (un)subscribe during dispatch are not generated", "PDO handlers after node removal are outside the property",
                "unsubscribe-all is only applied to ids no node owns (a node's own removal would otherwise legitimately fail)",
                "an extended frame whose id is <= 0x7FF cannot be told apart in Network.notify (no flag) and is not generated"]
